@@ -28,6 +28,7 @@ import (
 	"sort"
 	"strings"
 	"sync"
+	"sync/atomic"
 	"time"
 
 	c "github.com/buzzfeed/sso/internal/zz_verif/common"
@@ -60,13 +61,17 @@ type dirAns struct {
 type directory struct {
 	mu          sync.Mutex
 	active      map[string]int
+	calls       map[string]int // fill calls per group
+	maxConc     map[string]int // most fills of a group ever running at once
 	begins      chan fillReq
 	nextDirect  dirAns
 	directCalls int
+	auto        bool    // storm mode: fills are answered at once with autoAns, nothing is gated
+	autoAns     fillAns
 }
 
 func newDirectory() *directory {
-	return &directory{active: map[string]int{}, begins: make(chan fillReq, 64)}
+	return &directory{active: map[string]int{}, calls: map[string]int{}, maxConc: map[string]int{}, begins: make(chan fillReq, 64)}
 }
 
 // fill is the body of ListMemberships: announce, block until released, answer.
@@ -74,10 +79,17 @@ func (d *directory) fill(group string) ([]string, error) {
 	d.mu.Lock()
 	d.active[group]++
 	conc := d.active[group]
+	d.calls[group]++
+	if conc > d.maxConc[group] {
+		d.maxConc[group] = conc
+	}
+	auto, a := d.auto, d.autoAns
 	d.mu.Unlock()
-	reply := make(chan fillAns, 1)
-	d.begins <- fillReq{group: group, conc: conc, reply: reply}
-	a := <-reply
+	if !auto {
+		reply := make(chan fillAns, 1)
+		d.begins <- fillReq{group: group, conc: conc, reply: reply}
+		a = <-reply
+	}
 	d.mu.Lock()
 	d.active[group]--
 	d.mu.Unlock()
@@ -175,6 +187,8 @@ type scen struct {
 
 	steps  []string
 	jsteps []interface{}
+	storm  []string
+	jstorm []interface{}
 }
 
 func newScen(kind int, tick bool, lcTTL time.Duration, univ []string) *scen {
@@ -737,9 +751,118 @@ func (s *scen) finish() {
 }
 
 func (s *scen) result(label string) c.Case {
-	coq := fmt.Sprintf("Case %d %s %s %s", s.kind, c.Strs(s.univ), c.Bool(s.hung), c.List(s.steps))
+	coq := fmt.Sprintf("Case %d %s %s %s %s", s.kind, c.Strs(s.univ), c.Bool(s.hung), c.List(s.steps), c.List(s.storm))
 	return c.Case{Coq: coq, JSON: map[string]interface{}{"label": label, "kind": s.kind, "tick": s.tick, "hung": s.hung, "why": s.why,
-		"steps": s.jsteps}}
+		"steps": s.jsteps, "storm": s.jstorm}}
+}
+
+// ---------------------------------------------------------------- storms (invariants only)
+//
+// 2-8 goroutines per group are released together and call RefreshLoop for the SAME group - directly,
+// or through the real Google / Cognito ValidateGroupMembership for an uncached group - with a start-up
+// jitter of 1-4 ms, the directory answering at once.  Scheduling decides the order, so nothing is
+// replayed in the model; the Coq monitor judges invariants: at most one call answers "started", fills
+// of a group never overlap, and the group is filled once (refresh period 1 h) or at most once per
+// elapsed refresh period (2 ms period).  On the unchanged tree check-and-register is one critical
+// section, so exactly one loop exists whatever the scheduler does: the bounds cannot be exceeded.
+// The sleeps below only widen the detection window; no verdict depends on them.
+func runStorm(label string, r *c.Rng, kind int, viaAsk, ticking bool) c.Case {
+	s := newScen(kind, ticking, 0, groupPool)
+	defer s.close()
+	s.dir.auto = true
+	switch r.Intn(4) {
+	case 0:
+		s.dir.autoAns = fillAns{Kind: 2}
+	case 1:
+		s.dir.autoAns = fillAns{Kind: 1}
+	default:
+		s.dir.autoAns = fillAns{Kind: 0, Members: []string{"user0", "user2"}}
+	}
+	s.dir.nextDirect = dirAns{Groups: []string{}}
+	jitter := time.Duration(1+r.Intn(4)) * time.Millisecond
+	s.fc.VerifSetMaxJitter(jitter)
+	ttl := time.Hour
+	if ticking {
+		ttl = 2 * time.Millisecond // as newScen
+	}
+	gs := pickDistinct(r, groupPool, 1+r.Intn(2))
+	k := 2 + r.Intn(7)
+	trues := map[string]*int32{}
+	for _, g := range gs {
+		trues[g] = new(int32)
+	}
+	start := make(chan struct{})
+	var wg sync.WaitGroup
+	for _, g := range gs {
+		for i := 0; i < k; i++ {
+			wg.Add(1)
+			q := []string{g}
+			if len(gs) > 1 && r.Chance(0.3) {
+				q = shuffled(r, gs)
+			}
+			go func(g string, i int, q []string) {
+				defer wg.Done()
+				<-start
+				user := fmt.Sprintf("user%d", i)
+				switch {
+				case !viaAsk:
+					if s.fc.RefreshLoop(g) {
+						atomic.AddInt32(trues[g], 1)
+					}
+				case kind == 0:
+					s.google.ValidateGroupMembership(user, q, "unused")
+				default:
+					s.cognito.ValidateGroupMembership("someone@example.test", q, "tok-"+user)
+				}
+			}(g, i, q)
+		}
+	}
+	t0 := time.Now()
+	close(start)
+	done := make(chan struct{})
+	go func() { wg.Wait(); close(done) }()
+	select {
+	case <-done:
+	case <-time.After(waitDeadline):
+		s.fail("storm callers did not return")
+	}
+	s.waitCond("first fill of every stormed group", func() bool {
+		s.dir.mu.Lock()
+		defer s.dir.mu.Unlock()
+		for _, g := range gs {
+			if s.dir.calls[g] < 1 || s.dir.active[g] > 0 {
+				return false
+			}
+		}
+		return true
+	})
+	if ticking {
+		time.Sleep(16 * time.Millisecond)
+	} else {
+		time.Sleep(2 * time.Millisecond)
+	}
+	func() { defer func() { recover() }(); s.fc.Stop() }()
+	s.stopped = true
+	s.waitCond("loops exit after Stop", func() bool { return len(s.snap().Loops) == 0 })
+	elapsed := time.Since(t0)
+	time.Sleep(200 * time.Microsecond)
+	s.dir.mu.Lock()
+	for _, g := range gs {
+		periods := "None"
+		var jp interface{}
+		if ticking {
+			p := int(elapsed / ttl)
+			periods = fmt.Sprintf("(Some %d)", p)
+			jp = p
+		}
+		callers := k
+		s.storm = append(s.storm, fmt.Sprintf("SO %s %d %d %d %d %s", c.Str(g), callers, atomic.LoadInt32(trues[g]), s.dir.calls[g], s.dir.maxConc[g], periods))
+		s.jstorm = append(s.jstorm, map[string]interface{}{"group": g, "callers": callers, "via_membership_question": viaAsk,
+			"jitter_ms": int(jitter / time.Millisecond), "started_answers": atomic.LoadInt32(trues[g]), "fills": s.dir.calls[g],
+			"max_concurrent_fills": s.dir.maxConc[g], "elapsed_refresh_periods": jp})
+	}
+	s.dir.mu.Unlock()
+	return s.result(label)
 }
 
 func runScript(label string, kind int, tick bool, lcTTL time.Duration, univ []string, script []cmd) c.Case {
@@ -1264,6 +1387,16 @@ func main() {
 	cases = append(cases, genGCPopulation(fixed, "corpus-gc-population-a", 96), genGCPopulation(fixed, "corpus-gc-population-b", 128),
 		genGCManySets(fixed, "corpus-gc-manysets"))
 	cases = append(cases, genGCPopulation(r, "seeded-gc-population", 80), genGCManySets(r, "seeded-gc-manysets"))
+	// RefreshLoop storms, every combination of provider x (direct | through a membership question) x (1 h | 2 ms period), twice
+	for rep := 0; rep < 2; rep++ {
+		for kind := 0; kind < 2; kind++ {
+			for _, viaAsk := range []bool{false, true} {
+				for _, ticking := range []bool{false, true} {
+					cases = append(cases, runStorm(fmt.Sprintf("corpus-storm-k%d-ask%v-tick%v-%d", kind, viaAsk, ticking, rep), r, kind, viaAsk, ticking))
+				}
+			}
+		}
+	}
 	isHung := func(cs c.Case) bool {
 		m, ok := cs.JSON.(map[string]interface{})
 		return ok && m["hung"] == true
@@ -1272,6 +1405,8 @@ func main() {
 	for i := 0; i < a.N && nHung < 5; i++ { // a few hangs are evidence enough; do not wait out hundreds of deadlines
 		var cs c.Case
 		switch {
+		case i%8 == 3: // RefreshLoop storm, judged by invariants only
+			cs = runStorm(fmt.Sprintf("gen-storm-%d", i), r, r.Intn(2), r.Chance(0.5), r.Chance(0.3))
 		case i%16 == 7: // many users with different memberships, same questions
 			cs = genGCPopulation(r, fmt.Sprintf("gen-gc-population-%d", i), 64+r.Intn(40))
 		case i%16 == 15: // many near-identical questions of one user
